@@ -82,6 +82,12 @@ def respell(argv, spelling, outdir):
             elif spelling == "dotdot":
                 os.makedirs(os.path.join(outdir, "sub"), exist_ok=True)
                 out[i] = "sub/../" + out[i]
+            elif spelling == "envvar":
+                # a '$NAME' inside the file name is part of the name (no shell is involved); the
+                # variable is set in the process environment
+                os.environ["EVO_SEQ"] = "07"
+                st, ex = os.path.splitext(out[i])
+                out[i] = st + "_$EVO_SEQ" + ex
             elif spelling == "noext":
                 # a name without extension (writers that add a default extension must check the
                 # name they really write to); plot exports derive the format from the extension
@@ -277,7 +283,9 @@ def k_cell(run, case):
         if case["scenario"].startswith("evo_res"):
             ctx["zips"] = make_res_zips(work, ind)
         srng = run.rng(case, stream=6)
-        ctx["spelling"] = case.get("spelling") or ["plain", "plain", "dot", "abs", "dotdot", "tilde", "noext"][srng.integers(7)]
+        ctx["spelling"] = case.get("spelling") or ["plain", "plain", "dot", "abs", "dotdot", "tilde", "noext", "envvar"][srng.integers(8)]
+        if S.collision and ctx["spelling"] == "noext":
+            ctx["spelling"] = "plain"  # (the two outputs must keep naming the same target)
         # A) discover the outputs of this scenario in an empty directory, warnings off
         outA = os.path.join(work, "A")
         os.makedirs(outA)
